@@ -107,6 +107,25 @@ def queue_ids(comp):
     return None
 
 
+def api_readout(app, ids):
+    """what readers get through the public API (a cached object edited in place changes these while the storage stays the same)"""
+    out = {}
+    for i in ids.get("invocation", []):
+        rec = []
+        for name, f in (("status", lambda: app.orchestrator.get_invocation_status_record(i)), ("result", lambda: app.state_backend.get_result(i)),
+                        ("exception", lambda: app.state_backend.get_exception(i)), ("history", lambda: [(h.status_record.status.name, h.runner_context_id) for h in app.state_backend.get_history(i)])):
+            try:
+                rec.append((name, canon(f())))
+            except Exception as e:      # noqa: BLE001
+                rec.append((name, "raises " + type(e).__name__))
+        out[i] = rec
+    try:
+        out["active_runners"] = canon([(r.runner_id, r.last_heartbeat, getattr(r, "allow_to_run_atomic_service", None)) for r in app.orchestrator.get_active_runners()])
+    except Exception as e:      # noqa: BLE001
+        out["active_runners"] = "raises " + type(e).__name__
+    return out
+
+
 def diff(a, b):
     """short description of where two snapshots differ"""
     out = []
@@ -118,6 +137,10 @@ def diff(a, b):
                 for f in sorted(set(fx) | set(fy)):
                     if fx.get(f) != fy.get(f):
                         out.append(f"{k}.{f}: {str(fx.get(f))[:140]} -> {str(fy.get(f))[:140]}")
+            elif isinstance(x, dict) and isinstance(y, dict):       # the API read-out: per invocation id
+                for f in sorted(set(x) | set(y), key=str):
+                    if x.get(f) != y.get(f):
+                        out.append(f"{k}[{f}]: {str(x.get(f))[:160]} -> {str(y.get(f))[:160]}")
             else:
                 sx, sy = (x or []), (y or [])
                 gone = [r for r in sx if r not in sy][:2] if isinstance(sx, list) else sx
@@ -151,13 +174,17 @@ def build_state(app, backend, kind):
     if kind == "empty":
         return ids
     R = runner_ctx("runner-live")
-    app.orchestrator.register_runner_heartbeats(["runner-live"])
+    app.orchestrator.register_runner_heartbeats(["runner-live"], can_run_atomic_service=True)
+    try:
+        app.state_backend.store_runner_context(R)          # the runner pages read the stored context
+    except Exception:      # noqa: BLE001
+        pass
     with_ctx = lambda f: f
     invs = [new_invocation(app, vt.add, x=i, y=1) for i in range(7)] + [new_invocation(app, vt.key_task, key=f"k{i}", other="o") for i in range(3)]
     claimed = list(app.orchestrator.get_invocations_to_run(4, R))          # 4 PENDING under the live runner
     for inv in claimed[:3]:
         app.orchestrator.set_invocation_status(inv.invocation_id, S.RUNNING, R)
-    app.orchestrator.set_invocation_result(claimed[0], 42, R) if hasattr(app.orchestrator, "set_invocation_result") else None
+    app.orchestrator.set_invocation_result(claimed[0], list(range(400)), R)      # a collection large enough to be stored through the client data store
     try:
         app.orchestrator.set_invocation_exception(claimed[1], vt.Other("boom"), R)
     except Exception:      # noqa: BLE001
@@ -312,12 +339,14 @@ def snapshot_around_every_get(ctx: RunCtx) -> BoundedResult:
                     for path, endpoint in routes:
                         for url, params in requests_for(path, endpoint, ids, thorough, cap):
                             before = snapshot(app, backend, db)
+                            before["api"] = api_readout(app, ids)
                             try:
                                 r = client.get(url, params=params)
                                 status = r.status_code
                             except Exception as e:      # noqa: BLE001
                                 status = type(e).__name__
                             after = snapshot(app, backend, db)
+                            after["api"] = api_readout(app, ids)
                             n += 1
                             n_routes.add(path)
                             if before != after and len(res.failures) < 12:
